@@ -80,8 +80,11 @@ Fixpoint fill (l : list (item * item)) (seen : list ckey) (c : wclaims) : res wc
            end
   end.
 
+(* Claims.UnmarshalCBOR: the data is first decoded as a generic value (duplicate keys, text and tag rules at every depth,
+   also under claims the struct does not know), then the struct is filled *)
 Definition dec_claims (raw : bytes) : res wclaims :=
   do it <- decode raw;
+  do _ <- parse true it;
   do t <- through_tags it;
   match t with
   | IMap l => fill l [] zero_claims
